@@ -12,7 +12,8 @@
     content <tokens…>              content of the source index after WriteTo (accessors)
     canonbytes                     reply carries the model's canonical re-encoding
     canonload <hex> <count> <tokens…>   ReadFrom(model bytes) into a fresh real index: count, content
-    junk <junklen> => <count> <unread>|err   ReadFrom(stream ++ junk)
+    junk <junklen> [reader] => <count> <unread>|err   ReadFrom(stream ++ junk) through the named reader
+    rewrite <hex> => identical=<0|1>  a second WriteTo with no change in between
     removed <ids>                  ids removed during the history
     q <label> => <hits…>|err       a query answer; the first answer of a label is the reference
     eq <label> => <tokens…>        any outcome that must repeat identically per label
@@ -291,17 +292,41 @@ def opCodec (st : St) (toks : List String) : St × String :=
         let i := ((want.zip content).takeWhile fun (a, b) => a == b).length
         (st, s!"SPECFAIL canonload content at={i} model={want.getD i "<end>"} impl={content.getD i "<end>"}")
     | _, _ => (st, "BADOP canonload")
-  | ["junk", junklen] =>
+  | "junk" :: junklen :: reader =>
+    -- `reader` names the reader the bytes were delivered through (plain, one byte at a time,
+    -- random chunks, half reads, field-aligned pieces, gzip blocks, MultiReader, data+EOF)
+    let rflag := match reader with | [r] => s!" reader-{r}=1" | _ => ""
     match junklen.toNat?, post with
     | some jl, [count, unread] =>
       if count != toString st.stream.length then
-        (st, s!"SPECFAIL read-count reported={count} len={st.stream.length}")
+        (st, s!"SPECFAIL read-count reported={count} len={st.stream.length}{rflag}")
       else if unread != toString jl then
-        (st, s!"SPECFAIL junk unread={unread} want={jl}")
-      else (st, "ok")
-    | some _, ["err"] => (st, "SPECFAIL junk real ReadFrom rejected its own stream")
+        (st, s!"SPECFAIL junk unread={unread} want={jl}{rflag}")
+      else (st, s!"ok{rflag}")
+    | some _, ["err"] => (st, s!"SPECFAIL junk real ReadFrom rejected its own stream{rflag}")
     | some _, ["hang"] => (st, "SPECFAIL ReadFrom did not return on a valid stream (hang)")
     | _, _ => (st, "BADOP junk")
+  | ["rewrite", hex] =>
+    -- a second WriteTo with no change in between: the same stream up to Go map order, and
+    -- byte-identical when the kind holds no map
+    match parseHexBytes hex, st.decoded with
+    | some bytes, some s =>
+      let mapFree := match st.recv.kind with
+        | .flat | .ivf | .pq | .ivfpq => true
+        | _ => false
+      if mapFree && bytes != st.stream then
+        (st, s!"SPECFAIL second WriteTo in a row wrote other bytes (len {bytes.length} vs {st.stream.length})") else
+      if bytes == st.stream then (st, "ok identical=1") else
+      match st.recv.decodeC bm bytes with
+      | .ok ((s2, _), []) =>
+        if (canon s2).encodeRaw bm == (canon s).encodeRaw bm then (st, "ok permuted=1")
+        else (st, "SPECFAIL second WriteTo in a row wrote another content")
+      | _ => (st, "SPECFAIL second WriteTo in a row wrote a stream the model cannot decode")
+    | some bytes, none =>
+      -- the first stream was not decodable by the model (reported there): compare lengths only
+      if bytes.length == st.stream.length then (st, "ok") else
+      (st, s!"SPECFAIL second WriteTo in a row wrote {bytes.length} bytes, the first {st.stream.length}")
+    | _, _ => (st, "BADOP rewrite")
   | ["removed", ids] =>
     match parseIds ids, st.decoded with
     | some ids, some s =>
